@@ -22,7 +22,7 @@ import (
 
 // C06 — malformed input yields errors, never panics, hangs or runaway allocation.
 
-const c06Rule = "five entry points (container file -> ReadFile, record body -> Codec.Read and Codec.Skip, schema JSON -> SchemaFromString, decoder construction -> Schema.Codec of the parsed schema against catalogue targets, timestamp text); " +
+const c06Rule = "five entry points (container file -> ReadFile, record body -> Codec.Read and Codec.Skip, schema JSON -> SchemaFromString, decoder construction -> Schema.Codec of parsed schemas against catalogue targets and of arbitrary generated schemas against arbitrary generated Go types followed by a decode, timestamp text); " +
 	"inputs: structure-aware mutations of valid encodings (every length / count / block size / union selector / metadata length / file block count / file block length token located by the reference decoder's spans is replaced by one of " +
 	"-1, MinInt64, 0, 1, v+1, 2^31, 2^32, 2^62-1, MaxInt64, an 11-byte varint, a truncated varint; count and block size of a size-prefixed block set together to one large value), truncation at a drawn byte, single-bit flips, header variants (no codec, unknown codec, snappy block < 4 bytes), random bytes; " +
 	"evaluated in a worker subprocess (6 GiB address space): verdict = value or error, no panic, no process death, answer within 20 s, growth of the heap footprint (MemStats.HeapSys) <= 32 MiB + 4096 x len(input); " +
@@ -84,6 +84,21 @@ func runC06InWorker(c c06Case) error {
 		} else {
 			_ = codec.Read(rb, reflect.New(typ).UnsafePointer())
 		}
+	case "pair":
+		// an arbitrary generated schema against an arbitrary generated Go type:
+		// construction must return a codec or an error, and a codec that was
+		// built must survive both valid encodings of the schema and random bytes
+		lib, err := avro.SchemaFromString(ref.Render(c.Schema, nil))
+		if err != nil {
+			return nil
+		}
+		typ := spec.Build(c.Target)
+		codec, err := lib.Codec(reflect.New(typ).Elem().Interface())
+		if err != nil {
+			return nil
+		}
+		_ = codec.Read(avro.NewReadBuf(c.Data), reflect.New(typ).UnsafePointer())
+		_ = codec.Skip(avro.NewReadBuf(c.Data))
 	case "schema":
 		s, err := avro.SchemaFromString(string(c.Data))
 		if err != nil {
@@ -252,6 +267,8 @@ func drawC06(t *rapid.T) c06Case {
 		return drawC06Schema(t)
 	case 1:
 		return c06Case{Entry: "time", Data: drawC18(t).S, What: "timestamp text"}
+	case 2:
+		return drawC06Pair(t)
 	}
 	// a valid wire case to start from
 	o := &gen.WireOpts{MaxDepth: 3, MultiUnion: true, Drop: 10, Logical: true}
@@ -457,6 +474,60 @@ func mutateBytes(t *rapid.T, valid []byte, spansOf func([]byte) []ref.Span) ([]b
 	}
 	sp := spans[gen.Uniform(t, "span", len(spans))]
 	return replaceSpan(valid, sp, gen.Uniform(t, "hostile", len(hostileVarints)))
+}
+
+// drawC06Pair: an arbitrary record schema (every kind, logical types, any
+// unions) against an arbitrary Go struct whose field names match the schema's.
+func drawC06Pair(t *rapid.T) c06Case {
+	so := &gen.SchemaOpts{MaxDepth: 3, Enum: true, Logical: true, AnyUnion: true, ObjectPrims: true}
+	var s ref.Schema
+	for tries := 0; ; tries++ {
+		s = gen.RecordSchema(t, so, 0)
+		if (!amplifies(s) && minWidth(s) > 0) || tries > 10 {
+			break
+		}
+	}
+	if amplifies(s) || minWidth(s) == 0 {
+		s = ref.Schema{Kind: "record", Name: "R", Fields: []ref.Field{{Name: "f0", Type: ref.Prim("long")}}}
+	}
+	ts := gen.StructType(t, gen.TypeOpts{MaxDepth: 3, MaxFields: 5, Wide: true, NoTags: true}, 1)
+	for i := range ts.Fields {
+		ts.Fields[i].JSON = fmt.Sprintf("f%d", i)
+	}
+	c := c06Case{Entry: "pair", Schema: s, Target: ts, GoType: ts.GoString(), What: "arbitrary schema x arbitrary Go type"}
+	if rapid.Bool().Draw(t, "validBody") && !hasEnumOrUnknown(s) {
+		d := gen.WireDatum(t, s, spec.TypeSpec{}, false)
+		if b, err := ref.Encode(s, d, &ref.Choices{Bits: gen.ChoiceBytes(t, "choices", 8)}); err == nil {
+			c.Data = b
+			c.What += ", valid encoding"
+			return c
+		}
+	}
+	c.Data = rapid.SliceOfN(rapid.Byte(), 0, 48).Draw(t, "random")
+	return c
+}
+
+func hasEnumOrUnknown(s ref.Schema) bool {
+	if s.Kind == "enum" {
+		return true
+	}
+	if s.Items != nil && hasEnumOrUnknown(*s.Items) {
+		return true
+	}
+	if s.Values != nil && hasEnumOrUnknown(*s.Values) {
+		return true
+	}
+	for _, f := range s.Fields {
+		if hasEnumOrUnknown(f.Type) {
+			return true
+		}
+	}
+	for _, b := range s.Branches {
+		if hasEnumOrUnknown(b) {
+			return true
+		}
+	}
+	return false
 }
 
 var schemaFragments = []string{
